@@ -968,13 +968,23 @@ impl<'a> Session<'a> {
                 self.mark_script_change();
                 Res::Ok
             }
-            Op::InScript { utxo, wit, by_utxo } => {
+            Op::InScript { utxo, wit, by_utxo, mistaken } => {
                 need!(self.utxo_ok(*utxo) && self.wit_ok(wit));
                 let ut = &self.w.utxos[*utxo];
                 let input = self.w.input_of(ut);
                 let val = self.w.value(ut.coin, &ut.assets);
                 let full = self.utxo_as_handed_over(*utxo, idx);
                 let outpoint = self.w.outpoint(*utxo);
+                if let (Some(ms), true) = (mistaken, self.is_plutus(wit)) {
+                    if (*ms as usize) < self.w.scripts.len() && *ms != wit.script && self.w.scripts[*ms as usize].is_plutus() {
+                        let wrong = Wit { script: *ms, how: ScriptUse::Witness, datum: DatumUse::None, red: wit.red.wrapping_add(500_000_000), mem: 1, steps: 1, signers: None };
+                        if let Some(pw) = self.plutus_witness(&csl::RedeemerTag::new_spend(), &wrong) {
+                            self.inb.add_plutus_script_input(&pw, &input, &val);
+                            // replaced at once by the call below: never live
+                            self.h.attaches.push(Attach { op: idx, red: wrong.red, purpose: Purpose::Spend(outpoint.0.clone(), outpoint.1), script: wrong.script, live: false });
+                        }
+                    }
+                }
                 if self.is_plutus(wit) {
                     let pw = match self.plutus_witness(&csl::RedeemerTag::new_spend(), wit) {
                         Some(x) => x,
